@@ -1185,6 +1185,19 @@ where
 }
 
 #[cfg(remoc_verif)]
+impl PortEvt {
+    /// Reports a chunk or port batch that is about to be queued for sending.
+    pub(crate) fn verif_enq(&self) {
+        use crate::verif::emit;
+        match self {
+            PortEvt::SendData { remote_port, data, first, last } => emit("enq_data", &[("remote", *remote_port as u64), ("len", data.len() as u64), ("first", *first as u64), ("last", *last as u64)]),
+            PortEvt::SendPorts { remote_port, ports, first, last, .. } => emit("enq_ports", &[("remote", *remote_port as u64), ("n", ports.len() as u64), ("first", *first as u64), ("last", *last as u64)]),
+            _ => (),
+        }
+    }
+}
+
+#[cfg(remoc_verif)]
 impl<TransportSink, TransportStream> ChMux<TransportSink, TransportStream> {
     fn verif_event(&self, event: &GlobalEvt) {
         use crate::verif::emit;
